@@ -51,9 +51,13 @@ class Module:
         self.tree = ast.parse(self.src, filename=self.path)
         self.name = os.path.splitext(os.path.basename(rel))[0]
         self.canon_stats = (0, 0)
+        self.normalisation = None
         if os.environ.get("VERIF_NO_CANON") != "1":
             from . import canon
             self.canon_stats = canon.canonicalise(self.tree, self.name)
+            if os.environ.get("VERIF_NO_NORMALISE") != "1":
+                from . import normalise
+                self.normalisation = normalise.normalise(self.tree, rel, self.name)
         self.funcs = {}      # qname -> Func
         self.classes = {}    # name -> ClassDef
         self.parents = {}    # id(node) -> parent node
